@@ -317,8 +317,10 @@ def main():
                            'environment contracts of DESIGN §2.3 (see coverage.trusted_base for the per-run scan)',
                            'usize is 64 bit; derives are field-wise'],
               wall_s=round(wall, 2), violations=len(violations))
-    os.makedirs(os.path.join(VERIF, 'evidence'), exist_ok=True)
-    with open(os.path.join(VERIF, 'evidence', f'{prop}.json'), 'w') as f:
+    # (VERIF_EVIDENCE_DIR: developer runs against a scratch copy of the repository must not overwrite the evidence of /repo)
+    evdir = os.environ.get('VERIF_EVIDENCE_DIR') or os.path.join(VERIF, 'evidence')
+    os.makedirs(evdir, exist_ok=True)
+    with open(os.path.join(evdir, f'{prop}.json'), 'w') as f:
         json.dump(ev, f, indent=1)
 
     # ---------------- verdict
